@@ -46,7 +46,7 @@ def gen_histories(ctx, module, cfg, out, workers=8, simulate=None, depth=None, t
             n += 1
     ctx.notes.setdefault("generators", []).append(
         {"module": module, "cfg": cfg, "histories": n, "tlc_states": r.distinct, "wall_s": round(r.wall, 1),
-         "mode": "simulate" if simulate else "bfs-exhaustive"})
+         "mode": "simulate" if simulate else ("bfs-exhaustive" if r.distinct <= (cap or 10**12) else "bfs-enumeration, seeded sample of %d" % cap)})
     ctx.cov["states"] += r.distinct
     ctx.cov["transitions"] += r.generated
     return n
@@ -108,30 +108,30 @@ def validate(ctx, tracespec, cfg, tracefile, timeout=1800, heap="4g", par=8, chu
     """Run a facet trace specification over a (projected) trace file; returns {id: verdict-dict}.
     Large files are split at history boundaries and validated by several TLC processes in parallel."""
     import concurrent.futures
-    parts = []
+    # split at history boundaries into parts of about chunk_lines lines, streaming (traces can be many GB)
+    files = []
+    g = None
+    n = 0
     with open(tracefile) as f:
-        lines = f.readlines()
-    if len(lines) <= chunk_lines:
+        for line in f:
+            if g is None or (n >= chunk_lines and line.startswith('{"e":"reset"')):
+                if g is not None:
+                    g.write('{"e":"reset","id":"__end__"}\n')
+                    g.close()
+                pth = "%s.part%d" % (tracefile, len(files))
+                files.append(pth)
+                g = open(pth, "w")
+                n = 0
+            g.write(line)
+            n += 1
+    if g is not None:
+        if n and not line.startswith('{"e":"reset","id":"__end__"'):
+            g.write('{"e":"reset","id":"__end__"}\n')
+        g.close()
+    if len(files) == 1:
+        os.unlink(files[0])
         parts = [tracefile]
     else:
-        nparts = min(par * 2, (len(lines) + chunk_lines - 1) // chunk_lines)
-        target = len(lines) // nparts + 1
-        cur = []
-        for line in lines:
-            if line.startswith('{"e":"reset"') and len(cur) >= target:
-                parts.append(cur)
-                cur = []
-            cur.append(line)
-        if cur:
-            parts.append(cur)
-        files = []
-        for i, chunk in enumerate(parts):
-            pth = "%s.part%d" % (tracefile, i)
-            with open(pth, "w") as g:
-                g.writelines(chunk)
-                if not chunk[-1].startswith('{"e":"reset","id":"__end__"'):
-                    g.write('{"e":"reset","id":"__end__"}\n')
-            files.append(pth)
         parts = files
     verdicts = {}
     with concurrent.futures.ThreadPoolExecutor(max_workers=par) as ex:
@@ -276,13 +276,15 @@ def engine_check(ctx, gens, facets, jobs=12, labels=None, selftests=None):
     gens: list of dicts {module, cfg, simulate (opt), depth (opt), name}."""
     exe = ctx.build_harness("sim")
     ctx.level = "model_checking"
+    if getattr(ctx, "replay", None):
+        return replay_one(ctx, exe, facets, labels, jobs)
     tot = 0
     for g in gens:
         hist = os.path.join(ctx.out, g["name"] + ".ndjson")
         n = gen_histories(ctx, g["module"], g["cfg"], hist, workers=8, simulate=g.get("simulate"),
                           depth=g.get("depth"), prefix=g["name"],
                           timeout=g.get("timeout", 150 if g.get("simulate") else 900),
-                          cap=g.get("cap", 250000 if g.get("simulate") else None))
+                          cap=g.get("cap", 250000 if g.get("simulate") else 1200000))
         ctx.log("generator %s/%s: %d histories" % (g["module"], g["cfg"], n))
         if n == 0:
             raise vlib.MachineryError("generator produced no histories")
@@ -305,6 +307,26 @@ def engine_check(ctx, gens, facets, jobs=12, labels=None, selftests=None):
     if all(not g.get("simulate") for g in gens):
         ctx.cov["exhaustive"] = True
     return tot
+
+
+def replay_one(ctx, exe, facets, labels, jobs):
+    """./check <ID> --replay <file>: the file is a replay written by a previous run ({"history": {...}, ...}) or a bare
+    history ({"cfg":..., "steps":[...]}); it is executed alone against the current tree and judged by every facet."""
+    j = json.load(open(ctx.replay))
+    h = j.get("history", j)
+    h.setdefault("id", "replay")
+    hp = os.path.join(ctx.out, "replay.ndjson")
+    with open(hp, "w") as f:
+        f.write(json.dumps(h, separators=(",", ":")) + "\n")
+    campaign(ctx, exe, "replay", hp, facets, jobs=1, labels=labels, confirm=False)
+    tr = os.path.join(ctx.out, "replay.trace.ndjson")
+    if os.path.exists(tr):
+        with open(tr) as f:
+            for line in f:
+                ctx.log("  " + line.rstrip()[:400])
+        os.unlink(tr)
+    ctx.cov["rule"] = "one stored history replayed against the current tree and validated by TLC against the facet specification(s)"
+    return 1
 
 
 # ---- binding self-test: a corrupted trace must be rejected -------------------------------------------
